@@ -178,11 +178,11 @@ class AbstractPathModelDAG(ABC):
         if not (0 < self.subpath_constraints_coverage <= 1):     # (written so that NaN is rejected too)
             utils.logger.error(f"{__name__}: subpath_constraints_coverage must be in the range (0, 1]")
             raise ValueError("subpath_constraints_coverage must be in the range (0, 1]")
+        if self.subpath_constraints_coverage_length is not None and not (0 < self.subpath_constraints_coverage_length <= 1):
+            utils.logger.error(f"{__name__}: subpath_constraints_coverage_length must be in the range (0, 1]")
+            raise ValueError("If set, subpath_constraints_coverage_length must be in the range (0, 1]")
         if len(subpath_constraints) > 0:
             if self.subpath_constraints_coverage_length is not None:
-                if not (0 < self.subpath_constraints_coverage_length <= 1):
-                    utils.logger.error(f"{__name__}: subpath_constraints_coverage_length must be in the range (0, 1]")
-                    raise ValueError("If set, subpath_constraints_coverage_length must be in the range (0, 1]")
                 if self.length_attr is None:
                     utils.logger.error(f"{__name__}: If subpath_constraints_coverage_length is set, length_attr must be provided.")
                     raise ValueError("If subpath_constraints_coverage_length is set, length_attr must be provided.")
